@@ -344,6 +344,9 @@ func Fingerprint(st *xstate) string {
 			ks = append(ks, "m:"+k+"="+s)
 		}
 	}
+	for k := range st.esc {
+		ks = append(ks, "e:"+k)
+	}
 	sort.Strings(ks)
 	return strings.Join(ks, ";") + "||" + decisionsOf(st)
 }
